@@ -18,7 +18,7 @@ fn notify(store: &Arc<Store>, j: usize) -> (St, Act) {
     let s: St = kani::any();
     let a: Act = kani::any();
     let d: Arc<dyn Dispatcher<Act>> = Arc::new(store.clone());
-    in_reducer(|| store.do_notify(&a, &s, d, rt::instant_now()));
+    in_reducer(|| store.do_notify(&a, &s, d, rt::now_model()));
     (s, a)
 }
 
